@@ -9,7 +9,12 @@
    (c01_putplog_returns_err), does the flush loop of the sync actualizer stop at the first failing
    projector (c01_sync_flush_stops_at_error). `code_conf tl` = the flags the source has now.
    `ords stamp` is the order in which the sync actualizer serving a command flushes the np sync
-   projectors (a Go map order): any function listing exactly the projectors 0..np-1 (`ords_ok`).
+   projectors (a Go map order): any function listing exactly the projectors 0..np-1 with their
+   kinds (`ords_ok np dk`; dk j = false: projector j is subscribed ON EXECUTE of the command, it
+   is run for every event; dk j = true: AFTER DEACTIVATE of the document only, it is run for the
+   events with a deactivation row).  A third flag read from the source: does an event decoded from
+   the PLog still tell that a row deactivates its record (c01_decode_restores_active_modified;
+   it does not: finding C01-F3 - the re-apply then does not trigger AFTER DEACTIVATE projectors).
    All theorems hold for every trust level (also values the code does not know), every number of
    sync projectors, every flush order, every history and every fault plan.
 
@@ -35,6 +40,14 @@ Proof. reflexivity. Qed.
 Lemma flush_stops_at_first_error : c01_sync_flush_stops_at_error = true.
 Proof. reflexivity. Qed.
 
+(* what the statements about projections cover for the code as it is: the projectors the re-apply
+   triggers exactly as the command did (`good`): every projector not subscribed AFTER DEACTIVATE
+   only - and all of them as soon as the decoder restores the flag *)
+Definition covered (dk : N -> bool) : N -> Prop := good c01_decode_restores_active_modified dk.
+
+Lemma on_execute_projectors_covered : forall dk j, dk j = false -> covered dk j.
+Proof. intros dk j H. right. exact H. Qed.
+
 (* istructsmem/impl.go: the re-apply path of recovery (IEventReapplier) overwrites, it never uses
    a conditional insert *)
 Lemma reapply_is_unconditional : reapply_unconditional.
@@ -49,28 +62,51 @@ Qed.
    workspace WLog offsets 1..m without a gap holding exactly that workspace's PLog events in
    order, records = fold of the PLog, one row per event in the view of every one of the np sync
    projectors (`consistent np`). *)
-Theorem recovery_restores_consistency :
-  forall tl np ords steps st outs,
-  ords_ok np ords ->
+Theorem recovery_restores_consistency_partial :
+  forall tl np dk ords steps st outs,
+  ords_ok np dk ords ->
   run (code_conf tl) ords 1 steps state0 = (st, outs) ->
-  forall ord, ord_ok np ord ->
+  forall ord, ord_ok np dk ord ->
   exists s' l' p, recover (code_conf tl) ord [] (sto st) [] = (s', l', Some p)
-    /\ plog s' = plog (sto st) /\ consistent np s'.
+    /\ plog s' = plog (sto st) /\ consistent np dk (covered dk) s'.
 Proof.
-  exact (fun tl np ords steps st outs Ho =>
-    recovery_restores_consistency_proved (code_conf tl) ords np steps st outs
+  exact (fun tl np dk ords steps st outs Ho =>
+    recovery_restores_consistency_proved (code_conf tl) ords np dk steps st outs
       flush_stops_at_first_error Ho reapply_is_unconditional).
+Qed.
+
+(* The full statement - `consistent np dk all_projectors s'`, every projection - is REFUTED for an
+   AFTER DEACTIVATE projector (known finding C01-F3): one such projector; a deactivation whose view
+   write fails before its effect is answered 5xx; the recovery re-applies the event from the PLog,
+   where IsDeactivated() is no longer true, does not trigger the projector and succeeds: the
+   command is in PLog, WLog and records and for ever missing from the projection. *)
+Theorem recovery_restores_consistency_refuted :
+  exists steps st outs,
+  let k := mkConf true true false 0 in
+  let dk := fun _ : N => true in
+  run k (fun _ => [(0, true)]) 1 steps state0 = (st, outs)
+  /\ map o_reply outs = [ROk 1 [200001]; RServer; ROk 1 [200001]]
+  /\ mem st <> None
+  /\ ~ consistent 1 dk all_projectors (sto st)
+  /\ forall s' l' p, recover k [(0, true)] [] (sto st) [] = (s', l', p) -> ~ consistent 1 dk all_projectors s'.
+Proof.
+  exists [SCmd (mkCmd 1 false [Ins 1 5]) []; SCmd (mkCmd 1 false [Deact 200001]) [(TView, 1, FBefore)];
+          SCmd (mkCmd 2 false [Ins 1 6]) []].
+  eexists. eexists. cbn zeta. split; [vm_compute; reflexivity|]. split; [reflexivity|]. split; [discriminate|]. split.
+  - intros (_ & _ & _ & _ & H). specialize (H 0 eq_refl I 1 2). vm_compute in H. discriminate.
+  - intros s' l' p E. vm_compute in E. inversion E; subst. clear E.
+    intros (_ & _ & _ & _ & H). specialize (H 0 eq_refl I 1 2). vm_compute in H. discriminate.
 Qed.
 
 (* 1'. Whenever the processor holds partition state (that is: unless the last command failed at a
    write step and the partition awaits recovery) the stores are consistent already. *)
-Theorem serving_state_consistent :
-  forall tl np ords steps st outs,
-  ords_ok np ords ->
-  run (code_conf tl) ords 1 steps state0 = (st, outs) -> mem st <> None -> consistent np (sto st).
+Theorem serving_state_consistent_partial :
+  forall tl np dk ords steps st outs,
+  ords_ok np dk ords ->
+  run (code_conf tl) ords 1 steps state0 = (st, outs) -> mem st <> None -> consistent np dk (covered dk) (sto st).
 Proof.
-  exact (fun tl np ords steps st outs =>
-    serving_state_consistent_proved (code_conf tl) ords np steps st outs flush_stops_at_first_error).
+  exact (fun tl np dk ords steps st outs =>
+    serving_state_consistent_proved (code_conf tl) ords np dk steps st outs flush_stops_at_first_error).
 Qed.
 
 (* 1''. Full statement for a sync actualizer that flushes every projector and reports only the
@@ -80,19 +116,20 @@ Qed.
    (a later recovery re-applies only the last PLog event). *)
 Theorem consistency_refuted_without_early_return :
   exists steps st outs,
-  run (mkConf true false 0) (fun _ => [0; 1]) 1 steps state0 = (st, outs)
+  run (mkConf true false true 0) (fun _ => [(0, false); (1, false)]) 1 steps state0 = (st, outs)
   /\ Forall (fun o => exists w ids, o_reply o = ROk w ids) outs
   /\ mem st <> None
-  /\ ~ consistent 2 (sto st)
-  /\ forall s' l' p, recover (mkConf true false 0) [0; 1] [] (sto st) [] = (s', l', p) -> ~ consistent 2 s'.
+  /\ ~ consistent 2 (fun _ => false) all_projectors (sto st)
+  /\ forall s' l' p, recover (mkConf true false true 0) [(0, false); (1, false)] [] (sto st) [] = (s', l', p) ->
+     ~ consistent 2 (fun _ => false) all_projectors s'.
 Proof.
   exists [SCmd (mkCmd 1 false [Ins 1 5]) [(TView, 1, FBefore)]; SCmd (mkCmd 1 false [Ins 1 6]) []].
   eexists. eexists. split; [vm_compute; reflexivity|]. split; [|split; [|split]].
   - repeat constructor; eexists; eexists; reflexivity.
   - discriminate.
-  - intros (_ & _ & _ & _ & H). specialize (H 0 eq_refl 1 1). vm_compute in H. discriminate.
+  - intros (_ & _ & _ & _ & H). specialize (H 0 eq_refl I 1 1). vm_compute in H. discriminate.
   - intros s' l' p E. vm_compute in E. inversion E; subst. clear E.
-    intros (_ & _ & _ & _ & H). specialize (H 0 eq_refl 1 1). vm_compute in H. discriminate.
+    intros (_ & _ & _ & _ & H). specialize (H 0 eq_refl I 1 1). vm_compute in H. discriminate.
 Qed.
 
 (* 2. The partition log holds exactly the commands whose PLog write took effect, in the order
@@ -103,28 +140,28 @@ Qed.
    recovery (also those that failed after the PLog write: completed, not half-applied), the
    others in none. *)
 Theorem log_is_the_written_commands :
-  forall tl np ords steps st outs,
-  ords_ok np ords ->
+  forall tl np dk ords steps st outs,
+  ords_ok np dk ords ->
   run (code_conf tl) ords 1 steps state0 = (st, outs) ->
   Forall2 log_fits (events st) (written_cmds 1 steps outs)
   /\ Forall (fun o => forall w ids, o_reply o = ROk w ids -> o_written o = true) outs.
 Proof.
-  exact (fun tl np ords steps st outs =>
-    log_is_the_written_commands_proved (code_conf tl) ords np steps st outs flush_stops_at_first_error).
+  exact (fun tl np dk ords steps st outs =>
+    log_is_the_written_commands_proved (code_conf tl) ords np dk steps st outs flush_stops_at_first_error).
 Qed.
 
 (* 2a. Per command: it is in the log - and then, by theorems 1 and 2, completely in every store -
    exactly when its PLog write took effect, whatever it was answered. *)
 Theorem command_in_log_iff_written :
-  forall tl np ords steps st outs,
-  ords_ok np ords ->
+  forall tl np dk ords steps st outs,
+  ords_ok np dk ords ->
   run (code_conf tl) ords 1 steps state0 = (st, outs) ->
   forall t c o, In (t, c, o) (stamped 1 steps outs) ->
   (o_written o = true -> exists e, In e (events st) /\ e_tag e = t /\ event_matches c e = true /\ reply_fits o e)
   /\ (o_written o = false -> forall e, In e (events st) -> e_tag e <> t).
 Proof.
-  exact (fun tl np ords steps st outs =>
-    command_in_log_iff_written_proved (code_conf tl) ords np steps st outs flush_stops_at_first_error).
+  exact (fun tl np dk ords steps st outs =>
+    command_in_log_iff_written_proved (code_conf tl) ords np dk steps st outs flush_stops_at_first_error).
 Qed.
 
 (* 2b. "A command answered with an error because the partition-log write failed is in none of
@@ -144,7 +181,7 @@ Theorem plog_error_means_absent_refuted :
   /\ mem st <> None
   /\ exists e, In e (events st) /\ e_tag e = t /\ get2 (wlog (sto st)) (e_ws e) (e_woff e) = Some e.
 Proof.
-  exists 0, (fun _ => [0]), [SCmd (mkCmd 1 false [Ins 1 5]) [(TPLog, 1, FAfter)]; SCmd (mkCmd 2 false [Ins 1 1]) []].
+  exists 0, (fun _ => [(0, false)]), [SCmd (mkCmd 1 false [Ins 1 5]) [(TPLog, 1, FAfter)]; SCmd (mkCmd 2 false [Ins 1 1]) []].
   eexists. eexists. exists 1, (mkCmd 1 false [Ins 1 5]). eexists.
   split; [vm_compute; reflexivity|]. split; [reflexivity|]. split; [left; reflexivity|].
   split; [reflexivity|]. split; [discriminate|].
@@ -155,12 +192,12 @@ Qed.
    of its workspace, and an update of V carries (and so leaves) the sys.IsActive value the record
    has by the earlier events: a command never touches what it did not name. *)
 Theorem log_rows_well_formed :
-  forall tl np ords steps st outs,
-  ords_ok np ords ->
+  forall tl np dk ords steps st outs,
+  ords_ok np dk ords ->
   run (code_conf tl) ords 1 steps state0 = (st, outs) -> acts_ok [] (events st) = true.
 Proof.
-  exact (fun tl np ords steps st outs =>
-    log_rows_well_formed_proved (code_conf tl) ords np steps st outs flush_stops_at_first_error).
+  exact (fun tl np dk ords steps st outs =>
+    log_rows_well_formed_proved (code_conf tl) ords np dk steps st outs flush_stops_at_first_error).
 Qed.
 
 (* 3. Exactly one reply per command, no dead processor: for the code as it is (putPLog returns
@@ -177,49 +214,49 @@ Qed.
    ee5a67b65, finding F11) is false: one command, error before effect at the PLog write ... *)
 Theorem every_command_answered_refuted :
   exists tl ords steps st outs,
-  run (mkConf false true tl) ords 1 steps state0 = (st, outs) /\ ~ Forall (fun o => o_reply o <> RNone) outs.
+  run (mkConf false true true tl) ords 1 steps state0 = (st, outs) /\ ~ Forall (fun o => o_reply o <> RNone) outs.
 Proof.
-  exists 0, (fun _ => [0]), [SCmd (mkCmd 1 false [Ins 1 5]) [(TPLog, 1, FBefore)]].
+  exists 0, (fun _ => [(0, false)]), [SCmd (mkCmd 1 false [Ins 1 5]) [(TPLog, 1, FBefore)]].
   eexists. eexists. split; [vm_compute; reflexivity|].
   intros H. inversion H as [|? ? Hx _]. apply Hx. reflexivity.
 Qed.
 
 (* ... while without a fault at a PLog write nobody dies, whatever putPLog does. *)
 Theorem every_command_answered_partial :
-  forall fx tl np ords steps st outs,
-  ords_ok np ords -> no_plog_fault steps ->
-  run (mkConf fx true tl) ords 1 steps state0 = (st, outs) -> Forall (fun o => o_reply o <> RNone) outs.
+  forall fx sees tl np dk ords steps st outs,
+  ords_ok np dk ords -> no_plog_fault steps ->
+  run (mkConf fx true sees tl) ords 1 steps state0 = (st, outs) -> Forall (fun o => o_reply o <> RNone) outs.
 Proof.
-  exact (fun fx tl np ords steps st outs =>
-    every_command_answered_partial_proved (mkConf fx true tl) ords np steps st outs eq_refl).
+  exact (fun fx sees tl np dk ords steps st outs =>
+    every_command_answered_partial_proved (mkConf fx true sees tl) ords np dk steps st outs eq_refl).
 Qed.
 
 (* 4. No offset is reused: what the partition log or a workspace log holds at an offset after a
    history it holds after every continuation of that history. *)
 Theorem log_entries_never_change :
-  forall tl np ords steps1 steps2 st1 outs1 st2 outs2,
-  ords_ok np ords ->
+  forall tl np dk ords steps1 steps2 st1 outs1 st2 outs2,
+  ords_ok np dk ords ->
   run (code_conf tl) ords 1 steps1 state0 = (st1, outs1) ->
   run (code_conf tl) ords 1 (steps1 ++ steps2) state0 = (st2, outs2) ->
   (forall o e, nget (plog (sto st1)) o = Some e -> nget (plog (sto st2)) o = Some e)
   /\ (forall ws w e, get2 (wlog (sto st1)) ws w = Some e -> get2 (wlog (sto st2)) ws w = Some e).
 Proof.
-  exact (fun tl np ords steps1 steps2 st1 outs1 st2 outs2 =>
-    log_entries_never_change_proved (code_conf tl) ords np steps1 steps2 st1 outs1 st2 outs2
+  exact (fun tl np dk ords steps1 steps2 st1 outs1 st2 outs2 =>
+    log_entries_never_change_proved (code_conf tl) ords np dk steps1 steps2 st1 outs1 st2 outs2
       flush_stops_at_first_error).
 Qed.
 
 (* 5. The processor keeps serving: after any history with any faults a well-formed insert
    command sent without faults is answered with success, and the stores are consistent afterwards. *)
 Theorem clean_command_succeeds :
-  forall tl np ords steps c st outs,
-  ords_ok np ords ->
+  forall tl np dk ords steps c st outs,
+  ords_ok np dk ords ->
   insert_only c = true ->
   run (code_conf tl) ords 1 (steps ++ [SCmd c []]) state0 = (st, outs) ->
-  (exists w ids, option_map o_reply (last_opt outs) = Some (ROk w ids)) /\ consistent np (sto st).
+  (exists w ids, option_map o_reply (last_opt outs) = Some (ROk w ids)) /\ consistent np dk (covered dk) (sto st).
 Proof.
-  exact (fun tl np ords steps c st outs Ho =>
-    clean_command_succeeds_proved (code_conf tl) ords np steps c st outs
+  exact (fun tl np dk ords steps c st outs Ho =>
+    clean_command_succeeds_proved (code_conf tl) ords np dk steps c st outs
       flush_stops_at_first_error Ho reapply_is_unconditional).
 Qed.
 
@@ -227,17 +264,21 @@ Qed.
    check accepts (`satisfies`) read back stores that are consistent in the sense of theorem 1,
    for the number of sync projectors of the test application. *)
 Theorem oracle_sound :
-  forall t, satisfies t = true ->
-  consistent (t_np t) (mkStore (t_plog t) (t_wlog t) (t_recs t) (t_proj t)).
+  forall t, t_lenient t && t_deact t = false -> satisfies t = true ->
+  consistent (t_np t) (fun _ => t_deact t) all_projectors (mkStore (t_plog t) (t_wlog t) (t_recs t) (t_proj t)).
 Proof. exact satisfies_consistent. Qed.
 
 (* ---------- non-vacuity: three projectors flushed in the order 2,0,1; a history with faults at
    the records, the views and the PLog, a restart, a failed recovery, an unknown record ---------- *)
 
-Definition ex_ords : N -> list N := fun _ => [2; 0; 1].
+Definition ex_ords : N -> list (N * bool) := fun _ => [(2, false); (0, false); (1, false)].
 
-Lemma ex_ords_ok : ords_ok 3 ex_ords.
-Proof. intros t j. unfold ex_ords. cbn. lia. Qed.
+Lemma ex_ords_ok : ords_ok 3 (fun _ => false) ex_ords.
+Proof.
+  intros t j d. unfold ex_ords. cbn. split.
+  - intros [E|[E|[E|[]]]]; inversion E; subst; split; (lia || reflexivity).
+  - intros [Hj ->]. assert (H : j = 0 \/ j = 1 \/ j = 2) by lia. destruct H as [->|[->| ->]]; auto.
+Qed.
 
 Definition ex_steps : list step :=
   [SCmd (mkCmd 1 false [Ins 1 5; Ins 2 6]) [];
@@ -248,7 +289,7 @@ Definition ex_steps : list step :=
    SCmd (mkCmd 2 false [Ins 1 9]) [(TView, 1, FAfter)]].                            (* first projector written, error *)
 
 Example history_nonvacuous :
-  let '(st, outs) := run (mkConf true true 0) ex_ords 1 ex_steps state0 in
+  let '(st, outs) := run (mkConf true true false 0) ex_ords 1 ex_steps state0 in
   map o_reply outs = [ROk 1 [200001; 200002]; RServer; RClient; RClient; RServer]
   /\ map o_written outs = [true; true; false; false; true]
   /\ map e_tag (events st) = [1; 2; 5]
@@ -265,7 +306,7 @@ Proof. vm_compute. repeat split. Qed.
 
 Example recovery_nonvacuous :
   let '(st, _) := run (code_conf 1) ex_ords 1 ex_steps state0 in
-  let '(s', _, p) := recover (code_conf 1) [1; 2; 0] [] (sto st) [] in
+  let '(s', _, p) := recover (code_conf 1) [(1, false); (2, false); (0, false)] [] (sto st) [] in
   p <> None /\ get2 (wlog s') 2 1 = Some (mkEvent 5 2 1 [ENew 200001 9])
   /\ get3 (proj s') 0 2 1 = Some 5 /\ get3 (proj s') 1 2 1 = Some 5 /\ get3 (proj s') 2 2 1 = Some 5
   /\ get2 (recs s') 2 200001 = Some (mkRec 9 true)
@@ -279,15 +320,27 @@ Example in_log_iff_written_nonvacuous :
   /\ map e_tag (events st) = [1; 2; 5].
 Proof. vm_compute. split; reflexivity. Qed.
 
+(* an AFTER DEACTIVATE projector without faults: a row for the deactivation, none for the others;
+   and a deactivation whose WLog write fails is completed, its row being there already *)
+Example deactivate_projector_nonvacuous :
+  let k := code_conf 0 in
+  let steps := [SCmd (mkCmd 1 false [Ins 1 5; Ins 2 6]) []; SCmd (mkCmd 1 false [Deact 200001]) [(TWLog, 1, FBefore)];
+                SCmd (mkCmd 1 false [Upd 200002 7]) []] in
+  let '(st, outs) := run k (fun _ => [(0, true)]) 1 steps state0 in
+  map o_reply outs = [ROk 1 [200001; 200002]; RServer; ROk 3 []]
+  /\ get3 (proj (sto st)) 0 1 1 = None /\ get3 (proj (sto st)) 0 1 2 = Some 2 /\ get3 (proj (sto st)) 0 1 3 = None
+  /\ get2 (wlog (sto st)) 1 2 = Some (mkEvent 2 1 2 [EDeact 200001]).
+Proof. vm_compute. repeat split. Qed.
+
 Example answered_nonvacuous :
   let steps := [SCmd (mkCmd 1 false [Ins 1 5]) [(TPLog, 1, FAfter)]; SCmd (mkCmd 1 false [Ins 1 6]) []] in
   map o_reply (snd (run (code_conf 0) ex_ords 1 steps state0)) = [RServer; ROk 2 [200002]]
-  /\ map o_reply (snd (run (mkConf false true 0) ex_ords 1 steps state0)) = [RNone; ROk 2 [200002]].
+  /\ map o_reply (snd (run (mkConf false true false 0) ex_ords 1 steps state0)) = [RNone; ROk 2 [200002]].
 Proof. vm_compute. split; reflexivity. Qed.
 
 Example no_plog_fault_nonvacuous :
   no_plog_fault (firstn 4 ex_steps)
-  /\ map o_reply (snd (run (mkConf false true 0) ex_ords 1 (firstn 4 ex_steps) state0)) = [ROk 1 [200001; 200002]; RServer; RClient].
+  /\ map o_reply (snd (run (mkConf false true false 0) ex_ords 1 (firstn 4 ex_steps) state0)) = [ROk 1 [200001; 200002]; RServer; RClient].
 Proof.
   split; [|vm_compute; reflexivity].
   intros c plan Hin k. cbn in Hin.
@@ -313,8 +366,8 @@ Proof. vm_compute. split; reflexivity. Qed.
    the oracle; with the row of one projection removed the oracle rejects it *)
 Definition ex_trace (drop : bool) : trace :=
   let steps := ex_steps ++ [SCmd (mkCmd 1 false [Ins 1 99]) []] in
-  let '(st, outs) := run (code_conf 0) (fun _ => [0; 1; 2]) 1 steps state0 in
-  mkTrace 0 3 false
+  let '(st, outs) := run (code_conf 0) (fun _ => [(0, false); (1, false); (2, false)]) 1 steps state0 in
+  mkTrace 0 3 false false
     (fst (fold_left (fun '(acc, os) s =>
             match s, os with
             | SCmd c plan, o :: r => (acc ++ [OCmd c plan (map (fired_in (o_calls o)) plan) (o_reply o) (o_calls o)], r)
@@ -330,8 +383,9 @@ Example oracle_nonvacuous :
   /\ map fst (t_proj (ex_trace false)) = [0; 1; 2].
 Proof. vm_compute. repeat split. Qed.
 
-Print Assumptions recovery_restores_consistency.
-Print Assumptions serving_state_consistent.
+Print Assumptions recovery_restores_consistency_partial.
+Print Assumptions recovery_restores_consistency_refuted.
+Print Assumptions serving_state_consistent_partial.
 Print Assumptions consistency_refuted_without_early_return.
 Print Assumptions log_is_the_written_commands.
 Print Assumptions command_in_log_iff_written.
